@@ -164,7 +164,9 @@ pub mod xdr {
 
             // Try and decode n instances of T.
             let mut sum = 0;
-            let mut out = Vec::with_capacity(n);
+            // Never reserve for more elements than there are bytes left: n is
+            // untrusted and is only checked against the data as it is decoded.
+            let mut out = Vec::with_capacity(n.min(self.remaining()));
             for _ in 0..n {
                 let t = T::try_from(self.clone())?;
                 if self.remaining() < t.wire_size() {
@@ -175,7 +177,11 @@ pub mod xdr {
                 out.push(t);
             }
 
-            self.advance(pad_length(sum));
+            let pad = pad_length(sum);
+            if self.remaining() < pad {
+                return Err(Error::InvalidLength);
+            }
+            self.advance(pad);
 
             Ok(out)
         }
